@@ -20,7 +20,7 @@ From Coq Require Import List NArith ZArith Bool.
 From Delb.Base Require Import PyStr.
 From Delb.Gen Require Import GenValidators GenNsValidators GenNames GenAttr GenAttrKey.
 From Delb.Tree Require Import ATree ITree AOps.
-From Delb.Conc Require Import CTree COps CGuard Setters Reject Witness.
+From Delb.Conc Require Import CTree COps CGuard Setters SetterSpec Reject Witness.
 Import ListNotations.
 
 (* a refused single-node call leaves the whole concrete world -- target tree, offered node's tree, every lxml slot and
@@ -86,6 +86,10 @@ Theorem C09_comment_validator : forall s,
   comment_content_refused s = true <-> py_contains s [45%N; 45%N] = true \/ py_endswith s [45%N] = true.
 Proof. exact comment_refused_iff. Qed.
 Print Assumptions C09_comment_validator.
+(* ... and it is the hand-written statement of the XML rule that the check keeps as an independent oracle *)
+Theorem C09_comment_rule : forall s, comment_content_refused s = comment_rule s.
+Proof. exact comment_rule_generated. Qed.
+Print Assumptions C09_comment_rule.
 Theorem C09_pi_target_validator : forall s,
   pi_target_refused s = true <-> s = [] \/ py_lower_eq lower_pre s [120%N; 109%N; 108%N] = true.
 Proof. exact pi_target_refused_iff. Qed.
